@@ -590,10 +590,35 @@ func init() {
 		// decomposing the same polynomial twice yields the same digits
 		var sb strings.Builder
 		fmt.Fprintf(&sb, "%d/%d/%d/%d|", levelQ, levelP, nbPi, i)
+		allZero := true
 		for k := i * nbPi; k < (i+1)*nbPi && k <= levelQ; k++ {
 			for n := 0; n < p0Q[k].Len; n++ {
-				fmt.Fprintf(&sb, "%x;", x.feArg(p0Q[k].Obj.Cells[p0Q[k].Off+n], riQ.moduli[k]).P.hash())
+				f := x.feArg(p0Q[k].Obj.Cells[p0Q[k].Off+n], riQ.moduli[k])
+				if len(f.P.terms) != 0 {
+					allZero = false
+				}
+				fmt.Fprintf(&sb, "%x;", f.P.hash())
 			}
+		}
+		if allZero {
+			// the digit of the zero polynomial is zero on every limb (exactly, no centring ambiguity)
+			for k := 0; k <= levelQ; k++ {
+				for n := 0; n < p1Q[k].Len; n++ {
+					x.setCell(p1Q[k].Obj, p1Q[k].Off+n, x.feFromConst(riQ.moduli[k], x.ts.BV(0, 64)))
+				}
+			}
+			if levelP >= 0 {
+				rp, rpt := x.fieldOf(args[0], rt, "ringP")
+				if p, ok := rp.(Ptr); ok && p.Obj != nil {
+					riP := x.ringInfoAll(rp, rpt, levelP)
+					for k := 0; k <= levelP; k++ {
+						for n := 0; n < p1P[k].Len; n++ {
+							x.setCell(p1P[k].Obj, p1P[k].Off+n, x.feFromConst(riP.moduli[k], x.ts.BV(0, 64)))
+						}
+					}
+				}
+			}
+			return nil, true
 		}
 		st := x.feS()
 		id, ok := st.decompIDs["rns:"+sb.String()]
